@@ -115,6 +115,12 @@ def run(rep):
             # re-sowing (documented as safe) from the same object and from a reloaded one must give the same partition
             dict(name="C07_resow", configs=cfgs[::3], acts=["reload", "resow"], max_steps=3, mode="bfs", need=["DoReSow"],
                  sample=1500 if rep.tier == "quick" else 12000)]
+    # a second campaign on the same Crop object (sow, grow, reap with clean-up, sow again): same partition as the first
+    runs.append(dict(name="C07_campaign2", configs=[crop.mk([10], bmode="count", bval=3), crop.mk([7], bmode="count", bval=2, bwhere="sow"),
+                                                    crop.mk([5], bmode="size", bval=2), crop.mk([4], bmode="count", bval=6),
+                                                    crop.mk([9], bmode="count", bval=4, farmer="runner")],
+                     acts=["grow_missing", "reap_default", "campaign2", "reload"], max_steps=5, mode="bfs", need=["DoSow"], sample=400))
+
     def variants(case, idx):
         v = crop.default_variants(case, idx)
         v["sow_override"] = (idx % 2 == 0)      # (these histories only sow / reload / re-sow)
